@@ -408,10 +408,50 @@ Section Transformers.
     intros H. destruct (ns_loop_keeps _ _ _ _ H) as (tail & -> & HF). exact HF.
   Qed.
 
-  Lemma run_kind_keeps k d m m' :
-    no_custom_fields d -> Forall has_kind m -> run_kind nonstr k d m = Ok m' -> Forall2 keeps m m'.
+  (* replicas: the filter is a field-spec filter over the generated replicas table *)
+  Lemma replicas_incl : incl gen_replicas_fs frame_fs.
+  Proof. apply incl_gen_all. unfold gen_all_fs. intros x Hx. do 7 (apply in_or_app; right). apply in_or_app. left. exact Hx. Qed.
+
+  Lemma replica_apply_keeps rp fs : In fs frame_fs -> forall m hits m',
+    replica_apply rp fs m hits = Ok m' -> Forall2 keeps m m'.
   Proof.
-    intros Hn Hk. unfold run_kind.
+    intros Hin. induction m as [|r t IH]; intros hits m' H; cbn [replica_apply] in H; [inv H; constructor|].
+    destruct hits as [|h ht]; [inv H; apply Forall2_keeps_refl|].
+    match type of H with bind ?E _ = _ => destruct E as [r'| | |] eqn:E1 end; cbn [bind] in H; try discriminate.
+    destruct (replica_apply rp fs t ht) as [t'| | |] eqn:E2; cbn [bind] in H; try discriminate. inv H.
+    constructor; [|eapply IH; eauto].
+    destruct h; [|inv E1; apply keeps_refl].
+    destruct (Replica.replica_filter rp fs (r_node r)) as [n| | |] eqn:EF; cbn [bind] in E1; try discriminate. inv E1.
+    split; [|reflexivity]. intros q Hq. cbn [r_node with_node]. unfold Replica.replica_filter in EF.
+    destruct (untouched_in q fs Hq Hin) as [S D]. eapply fs_apply_frame; eauto.
+  Qed.
+
+  Lemma replica_loop_keeps rp fss : incl fss frame_fs -> forall found m r,
+    replica_loop rp fss found m = Ok r -> Forall2 keeps m (snd r).
+  Proof.
+    intros Hi. induction fss as [|fs t IH]; intros found m r H; cbn [replica_loop] in H; [inv H; apply Forall2_keeps_refl|].
+    destruct (mapM (replica_hits rp fs) m) as [hits| | |]; cbn [bind] in H; try discriminate.
+    destruct (replica_apply rp fs m hits) as [m1| | |] eqn:E; cbn [bind] in H; try discriminate.
+    eapply Forall2_keeps_trans; [eapply replica_apply_keeps; [apply Hi; left; reflexivity|exact E]|].
+    eapply IH; [|exact H]. intros x Hx. apply Hi. right. exact Hx.
+  Qed.
+
+  Lemma replicas_transform_keeps rps : forall m m',
+    Forall has_kind m -> replicas_transform rps m = Ok m' -> Forall2 keeps m m'.
+  Proof.
+    induction rps as [|rp t IH]; intros m m' Hk H; cbn [replicas_transform] in H; [inv H; apply Forall2_keeps_refl|].
+    destruct (replica_transform rp m) as [m1| | |] eqn:E; cbn [bind] in H; try discriminate.
+    unfold replica_transform in E. destruct (replica_loop rp gen_replicas_fs false m) as [r| | |] eqn:EL; cbn [bind] in E; try discriminate.
+    destruct (fst r); [|discriminate]. inv E.
+    pose proof (replica_loop_keeps rp _ replicas_incl _ _ _ EL) as K1.
+    pose proof (Forall2_keeps_has_kind _ _ K1 Hk) as Hk1. rewrite (drop_empties_has_kind _ Hk1) in H.
+    eapply Forall2_keeps_trans; [exact K1|eapply IH; eauto].
+  Qed.
+
+  Lemma run_kind_keeps k d m m' :
+    no_custom_fields d -> pd_images d = [] -> Forall has_kind m -> run_kind nonstr k d m = Ok m' -> Forall2 keeps m m'.
+  Proof.
+    intros Hn Hi Hk. unfold run_kind. rewrite Hi.
     destruct (String.eqb k "NamespaceTransformer"); [apply namespace_transform_keeps|].
     destruct (String.eqb k "PrefixTransformer"); [apply prefix_transform_keeps|].
     destruct (String.eqb k "SuffixTransformer"); [apply suffix_transform_keeps|].
@@ -421,24 +461,25 @@ Section Transformers.
       apply label_transforms_keeps; [eapply label_transformers_incl; eauto|exact Hk].
     - destruct (String.eqb k "AnnotationsTransformer").
       + apply label_transform_keeps. exact common_annotations_incl.
-      + intros H. inv H. apply Forall2_keeps_refl.
+      + destruct (String.eqb k "ReplicaCountTransformer"); [apply replicas_transform_keeps; exact Hk|].
+        destruct (String.eqb k "ImageTagTransformer"); intros H; inv H; apply Forall2_keeps_refl.
   Qed.
 
   Lemma run_order_keeps ks d : forall m m',
-    no_custom_fields d -> Forall has_kind m -> run_order nonstr ks d m = Ok m' -> Forall2 keeps m m'.
+    no_custom_fields d -> pd_images d = [] -> Forall has_kind m -> run_order nonstr ks d m = Ok m' -> Forall2 keeps m m'.
   Proof.
-    induction ks as [|k t IH]; intros m m' Hn Hk H; cbn [run_order] in H; [inv H; apply Forall2_keeps_refl|].
+    induction ks as [|k t IH]; intros m m' Hn Hi Hk H; cbn [run_order] in H; [inv H; apply Forall2_keeps_refl|].
     destruct (run_kind nonstr k d m) as [m1| | |] eqn:E; cbn [bind] in H; try discriminate.
-    pose proof (run_kind_keeps _ _ _ _ Hn Hk E) as K1.
+    pose proof (run_kind_keeps _ _ _ _ Hn Hi Hk E) as K1.
     pose proof (Forall2_keeps_has_kind _ _ K1 Hk) as Hk1.
     rewrite (drop_empties_has_kind _ Hk1) in H.
     eapply Forall2_keeps_trans; [exact K1|]. eapply IH; eauto.
   Qed.
 
   Lemma run_transformers_keeps d m m' :
-    no_custom_fields d -> Forall has_kind m -> run_transformers nonstr d m = Ok m' -> Forall2 keeps m m'.
+    no_custom_fields d -> pd_images d = [] -> Forall has_kind m -> run_transformers nonstr d m = Ok m' -> Forall2 keeps m m'.
   Proof.
-    intros Hn Hk. unfold run_transformers.
+    intros Hn Hi Hk. unfold run_transformers.
     destruct (Labels.label_transformers _ _); cbn [bind]; try discriminate.
     apply run_order_keeps; assumption.
   Qed.
@@ -485,10 +526,9 @@ Section Transformers.
   Lemma gen_resource_has_kind secret g r : gen_resource secret g = Ok r -> has_kind r.
   Proof.
     unfold gen_resource, gen_node. destruct (String.eqb (pg_name g) ""); cbn [bind]; try discriminate.
-    destruct (mapM Generators.parse_literal (pg_literals g)); cbn [bind]; try discriminate.
+    destruct (gen_pairs g); cbn [bind]; try discriminate.
     destruct (Generators.validated_map a []); cbn [bind]; try discriminate.
-    destruct (negb secret && _); cbn [bind]; try discriminate.
-    intros H. inv H. unfold has_kind. cbn. discriminate.
+    intros H. inv H. unfold has_kind. cbn [r_node get_at app find_field String.eqb Ascii.eqb Bool.eqb]. discriminate.
   Qed.
 
   (* generators that only create (behaviour unspecified or create): merge / replace rewrite the data of an
@@ -555,11 +595,12 @@ End Transformers.
 (* ---------- accumulation ---------- *)
 
 (* the domain of the theorem: every input document has a `kind` (the factory rejects documents without one)
-   no `labels` entry carries custom `fields` (those may target anything), and every generator creates
+   no `labels` entry carries custom `fields` (those may target anything), no `images:` entry (the legacy image
+   filter rewrites every `image` under any `containers` / `initContainers` list), and every generator creates
    (behaviour merge / replace rewrites the data of an existing resource) *)
 Inductive tree_ok : ptree -> Prop :=
 | ok_file docs : Forall (fun o => get_at [JKey "kind"] o <> None) docs -> tree_ok (PFile docs)
-| ok_dir n d ents : no_custom_fields d -> gens_create d -> Forall tree_ok ents -> tree_ok (PDir n d ents).
+| ok_dir n d ents : no_custom_fields d -> pd_images d = [] -> gens_create d -> Forall tree_ok ents -> tree_ok (PDir n d ents).
 
 Section Accumulate.
   Variable nonstr : string -> bool.
@@ -597,7 +638,7 @@ Section Accumulate.
     induction t as [docs|n d ents IH] using ptree_ind'; intros m Hok H.
     - inversion Hok as [? Hk|]; subst. cbn [accumulate] in H. apply append_all_spec in H as [-> _]. cbn [app].
       exists (map Some docs). split; [apply load_framed; exact Hk|apply somes_map_some].
-    - inversion Hok as [|? ? ? Hn Hg He]; subst. rewrite accumulate_dir in H.
+    - inversion Hok as [|? ? ? Hn Hi Hg He]; subst. rewrite accumulate_dir in H.
       destruct (is_empty_kust d ents); [discriminate|].
       destruct (acc_list (accumulate nonstr) ents []) as [m0| | |] eqn:E0; cbn [bind] in H; try discriminate.
       destruct (run_generators nonstr d m0) as [m1| | |] eqn:E1; cbn [bind] in H; try discriminate.
@@ -605,7 +646,7 @@ Section Accumulate.
       destruct (run_generators_framed nonstr d s0 m0 m1 Hg HF0 E1) as (k & HF1).
       exists (s0 ++ repeat None k)%list. split.
       + eapply Forall2_framed_keeps; [exact HF1|].
-        eapply run_transformers_keeps; [exact Hn|eapply Forall2_framed_has_kind; exact HF1|exact H].
+        eapply run_transformers_keeps; [exact Hn|exact Hi|eapply Forall2_framed_has_kind; exact HF1|exact H].
       + rewrite somes_app, somes_repeat_none, app_nil_r, Hs0. reflexivity.
   Qed.
 End Accumulate.
@@ -869,6 +910,6 @@ Example tree_ok_example :
   tree_ok (PDir "top" (mkPDirs "ns" "p-" "" [Labels.mkLD [("a", "b")] true false []] [("c", "d")] [] [] [])
              [PDir "base" no_dirs [PFile [Map [("kind", Scalar TStr SPlain "ConfigMap")]]]]).
 Proof.
-  constructor; [repeat constructor|split; constructor|]. constructor; [|constructor].
-  constructor; [constructor|split; constructor|]. constructor; [|constructor]. constructor. constructor; [cbn; discriminate|constructor].
+  constructor; [repeat constructor|reflexivity|split; constructor|]. constructor; [|constructor].
+  constructor; [constructor|reflexivity|split; constructor|]. constructor; [|constructor]. constructor. constructor; [cbn; discriminate|constructor].
 Qed.
